@@ -97,3 +97,24 @@ func Harness_C10_BytesEquals(n, m int) {
 	verif.Assert(Bytes(an, []byte{}), "nil and empty bytes differ")
 	verif.Cover("compared")
 }
+
+// Harness_C10_ArrayAlias: two views of ONE backing array (what a shallow copy
+// followed by an append into spare capacity, or a re-slice, produces): equal
+// iff they have the same length, whatever the content, for every array
+// comparison helper.
+func Harness_C10_ArrayAlias() {
+	backing := make([]int64, 4)
+	for i := range backing {
+		backing[i] = verif.Int64()
+	}
+	from := verif.Choose(2)
+	i, j := from+verif.Choose(4-from+1), from+verif.Choose(4-from+1)
+	a, b := backing[from:i], backing[from:j]
+	want := i == j
+	verif.Assert(ComparableArray(a, b) == want, "ComparableArray: views of one backing array with different lengths compare equal (or equal views do not)")
+	verif.Assert(GenericArray(a, b, func(x, y int64) bool { return x == y }) == want, "GenericArray: views of one backing array with different lengths compare equal (or equal views do not)")
+	verif.Assert(ComparableArrayPointer(&a, &b) == want, "ComparableArrayPointer on aliased views")
+	bb := [][]byte{{1}, {2}, {3}}
+	verif.Assert(BytesArray(bb[:1], bb[:2]) == false && BytesArray(bb[:2], bb[:2]), "BytesArray on aliased views")
+	verif.Cover("compared")
+}
